@@ -91,14 +91,7 @@ Theorem c17_clone_surfaces :
                  (collect nReq v') (action_reqs a) /\
          Forall2 (fun r' r => (forall x, sec_at r' x -> hidden x) /\ erase r' = erase r)
                  (collect nResp v') (if keep_state then action_resps a else [])).
-Proof.
-  intros dc Hdc ks. repeat split.
-  - intros p W. exact (entry_plan_surfaces dc Hdc ks p W).
-  - intros b W. exact (entry_block_surfaces dc Hdc ks b W).
-  - intros c W. exact (entry_checks_surfaces dc Hdc ks c W).
-  - intros s W. exact (entry_seq_surfaces dc Hdc ks s W).
-  - intros a W. exact (entry_action_surfaces dc Hdc ks a W).
-Qed.
+Proof. exact clone_surfaces_all. Qed.
 Print Assumptions c17_clone_surfaces.
 
 (* reports.Render: Secure runs on the plan itself, the templates get the plan, every sequence and every action of the
